@@ -215,6 +215,16 @@ func readerCall(r *zh.Rng, seg segment.Segment, a *seqAnswers, rc *zh.Recycled) 
 			}
 			return kind, ""
 		}
+		if r.Chance(3) {
+			// ids beyond every id of the segment: the answer is empty, it belongs to the caller (who
+			// goes on to accumulate other results into it), and the next such answer is empty again
+			miss, err := seg.DocNumbers([]string{"~~beyond-1", "~~beyond-2"})
+			if err != nil || miss == nil || !miss.IsEmpty() {
+				return kind, fmt.Sprintf("DocNumbers(two ids beyond every id of the segment) = %v (err %v), want the empty set", miss, err)
+			}
+			miss.Add(uint32(d))
+			return kind, ""
+		}
 		bm, err := seg.DocNumbers([]string{string(a.docIDs[d]), "zzz-absent"})
 		if err != nil || !bm.Contains(uint32(d)) {
 			return kind, fmt.Sprintf("DocNumbers(id of %d) = %v (err %v)", d, bm, err)
